@@ -14,7 +14,9 @@ EXPLANATION = (
     "changed, which is what C02 forbids. R1d: where a verifier loop extracts the claimed value per element, no path "
     "inside the loop leads from the extraction to the next iteration without consuming the value (a `continue` that "
     "jumps over the comparison lets that claim through while the comparison is still present in the function). "
-    "R1p: in the verifiers that decide one (commitment, value) pair per loop iteration (Hyrax, the linear-code schemes) "
+    "R5v: every lookup in the map of claimed evaluations sits (directly or through the calls leading to it) in a "
+    "loop whose cursor is data-derived from the query set, so which claims are compared is decided by the queries "
+    "and not by some other collection. R1p: in the verifiers that decide one (commitment, value) pair per loop iteration (Hyrax, the linear-code schemes) "
     "a working variable holding scheme data is not carried from one pair into the next unless it is an accumulator "
     "read after the loop. "
     "Decides these structural necessary conditions only, not the algebra.")
@@ -52,6 +54,9 @@ def run(rep, ctx, tier):
             if nl < 1:
                 rep.add("R1p", "%s:per-item-fresh:floor" % a.key, False, "no loop found in %s or what it calls (fail closed)" % a.key, a.body.span)
         if a.method in ("batch_check", "check_combinations"):
+            # the claim of every query is looked up: the lookups are driven by the query set
+            from ..rules import visited as R5V
+            rep.count("claim lookups", R5V.run(rep, ctx, a, "R5v"))
             # queries are never de-duplicated by label alone
             from ..rules import dedup as R5K
             R5K.run(rep, ctx, a, "R5k")
